@@ -321,6 +321,49 @@ static void tiny_o_body(void* arg) {
 }
 
 // ------------------------------------------------------------------------------------------------
+// scenario tinyx (C09, C02): a thread allocates a few blocks, hands them to 2..3 other threads and terminates (mi_thread_done as a scheduled
+// step); the others free what they got (with reclaim-on-free: each tries to adopt the abandoned segment), allocate again, verify.  Schedules are
+// enumerated from outside (script policy) like for `tiny`.
+// ------------------------------------------------------------------------------------------------
+static void tinyx_t_body(void* arg) {
+  TinyT& tt = *(TinyT*)arg; ThreadCtx& t = *tt.ctx;
+  wait_until(g_tiny_go, 1, "tinyx gate");
+  vf_rng_t pr; vf_rng_seed(&pr, 0x9191 + g_tiny_prog * 31 + (uint64_t)t.tid);
+  size_t n = (tt.blocks.empty() ? 64 : tt.blocks[0].n);
+  for (auto& b : tt.blocks) do_free(t, b, true);
+  int more = 1 + (int)vf_rng_below(&pr, 4);
+  for (int i = 0; i < more; i++) { MBlk b; if (do_alloc(t, &b, nullptr, n)) t.mine.push_back(b); }
+  if (vf_rng_chance(&pr, 1, 3)) { vf_cur_what = "mt collect"; mi_collect(false); g_collects.fetch_add(1); }
+  for (auto& b : t.mine) verify(b, "tinyx");
+  for (auto& b : t.mine) do_free(t, b, false);
+  t.mine.clear();
+  g_tiny_done.fetch_add(1, std::memory_order_release);
+}
+static void tinyx_a_body(void* arg) {
+  ThreadCtx& t = *(ThreadCtx*)arg;
+  vf_rng_t pr; vf_rng_seed(&pr, 0x7272 + g_tiny_prog);
+  static const size_t sizes[] = { 16000, 8000, 2000, 64, 100000, 600000 };
+  const size_t bsz = sizes[vf_rng_below(&pr, 6)];
+  const int nT = g_tiny_nT;
+  int nalloc = nT + (int)vf_rng_below(&pr, 6);
+  char d[256]; snprintf(d, sizeof(d), "exit bsz=%zu nalloc=%d nT=%d", bsz, nalloc, nT); g_tiny_desc = d;
+  std::vector<MBlk> bs;
+  for (int i = 0; i < nalloc; i++) { MBlk b; if (do_alloc(t, &b, nullptr, bsz)) bs.push_back(b); }
+  for (int k = 0; k < nT; k++) {
+    int give = 1 + (int)vf_rng_below(&pr, 2);
+    for (int g = 0; g < give && bs.size() > 0; g++) { size_t i = (size_t)vf_rng_below(&pr, bs.size()); g_tiny_t[k].blocks.push_back(bs[i]); bs[i] = bs.back(); bs.pop_back(); }
+  }
+  // what this thread keeps is freed by the last freeing thread at the very end (still live when this thread terminates)
+  for (auto& b : bs) g_tiny_t[nT - 1].blocks.push_back(b);
+  g_tiny_o_phase1 = vf_thread_points(0);
+  const bool gate_first = vf_rng_chance(&pr, 1, 2);
+  if (gate_first) g_tiny_go.store(1, std::memory_order_release);     // the others may already free while this thread is terminating (only if a script preempts it)
+  vf_cur_what = "mi_thread_done"; mi_thread_done(); g_thread_exits.fetch_add(1);
+  g_tiny_o_phase2 = vf_thread_points(0);
+  g_tiny_go.store(1, std::memory_order_release);
+}
+
+// ------------------------------------------------------------------------------------------------
 // scenario prodcons (C08): one owner heap, remote frees by consumers, heap must end empty and stay bounded
 // ------------------------------------------------------------------------------------------------
 static std::atomic<int> g_pc_freed(0), g_pc_stop(0);
@@ -634,7 +677,7 @@ static void result_body(FILE* f) {
           C.sched.mode, C.sched.policy, (unsigned long long)st.points, (unsigned long long)st.switches, (unsigned long long)st.forced_switches, (unsigned long long)st.spurious, (unsigned long long)st.delays,
           (unsigned long long)st.sched_hash, st.budget_exceeded, st.threads_created, (unsigned long long)st.delayed_stores, (unsigned long long)st.loads_overtaking);
   fputs("\"funcs\":{", f); vf_sched_dump_funcs(f, 14); fputs("},", f);
-  if (C.scenario == "tiny") {
+  if (C.scenario == "tiny" || C.scenario == "tinyx") {
     fprintf(f, "\"tiny\":{\"prog\":%llu,\"desc\":\"%s\",\"o_phase1\":%ld,\"o_phase2\":%ld,\"script_fired\":%d,\"points\":[", (unsigned long long)g_tiny_prog, g_tiny_desc.c_str(), g_tiny_o_phase1, g_tiny_o_phase2, st.script_fired);
     for (int i = 0; i <= g_tiny_nT; i++) fprintf(f, "%s%ld", i ? "," : "", vf_thread_points(i));
     fputs("],\"cas\":[", f);
@@ -724,7 +767,7 @@ int main(int argc, char** argv) {
   C.sched.hot = hot.c_str();
   if (C.threads > MAXT) C.threads = MAXT;
 
-  if (C.scenario == "xfree" || C.scenario == "tiny") REF = "C02"; else if (C.scenario == "prodcons") REF = "C08"; else if (C.scenario == "exit") REF = "C09,C02";   /* a double hand-out or changed contents after adoption refutes both */ else if (C.scenario == "heapdel") REF = "C10"; else REF = "C14";
+  if (C.scenario == "xfree" || C.scenario == "tiny") REF = "C02"; else if (C.scenario == "tinyx") REF = "C09,C02"; else if (C.scenario == "prodcons") REF = "C08"; else if (C.scenario == "exit") REF = "C09,C02";   /* a double hand-out or changed contents after adoption refutes both */ else if (C.scenario == "heapdel") REF = "C10"; else REF = "C14";
   static std::string refs = REF; REF = refs.c_str();
   vf_result_body = &result_body;
   vf_crash_refutes = REF;
@@ -760,6 +803,11 @@ int main(int argc, char** argv) {
     vf_thread_create(&exit_final_body, new_ctx(6));
   }
   else if (C.scenario == "arena") { for (int i = 0; i < C.threads; i++) vf_thread_create(&arena_body, new_ctx(7)); }
+  else if (C.scenario == "tinyx") {
+    g_tiny_nT = (C.threads >= 4 ? 3 : 2);
+    vf_thread_create(&tinyx_a_body, new_ctx(10));
+    for (int k = 0; k < g_tiny_nT; k++) { g_tiny_t[k].ctx = new_ctx(11); vf_thread_create(&tinyx_t_body, &g_tiny_t[k]); }
+  }
   else if (C.scenario == "tiny") {
     g_tiny_nT = (C.threads >= 4 ? 3 : 2);
     vf_thread_create(&tiny_o_body, new_ctx(8));
@@ -774,7 +822,7 @@ int main(int argc, char** argv) {
   replay_lifetimes();
   if (C.scenario == "prodcons") prodcons_check_bounded();
   if (C.scenario == "arena") arena_probe();
-  if (C.scenario == "exit" || C.scenario == "xfree" || C.scenario == "tiny") final_exit_checks();
+  if (C.scenario == "exit" || C.scenario == "xfree" || C.scenario == "tiny" || C.scenario == "tinyx") final_exit_checks();
   if (vf_err_count != 0 && C.scenario == "arena") {
     // a heap bound to a full arena reports "unable to allocate memory" (ENOMEM) for every failed claim: expected
     int n = vf_err_count; if (n > VF_MAX_ERRS) n = VF_MAX_ERRS; bool only = true;
